@@ -96,6 +96,13 @@ def ok_of(g, okfns):
     t = g[0]
     if t in ("var", "lit", "none"):
         return TRUE
+    if t == "app" and len(g) > 3 and g[3] == "lazy":
+        # Rust `a && b` / `a || b`: b (and its checked operations) is evaluated only if a is true / false
+        a, b = ok_of(g[2][0], okfns), ok_of(g[2][1], okfns)
+        if b == TRUE:
+            return a
+        guard = ("if", strip(g[2][0]), b, TRUE) if g[1] == "andb" else ("if", strip(g[2][0]), TRUE, b)
+        return conj(a, guard)
     if t == "app":
         c = TRUE
         for a in g[2]:
